@@ -387,7 +387,9 @@ class Interp:
         if isinstance(f, ast.Attribute) and f.attr in self.loader_methods and isinstance(f.value, ast.Name) and f.value.id in self.loader_names:
             sec = args[0] if args else kw.get('util_code_name')
             fil = args[1] if len(args) > 1 else kw.get('from_file')
-            self.loads.append(LoadSite(self.cur, self.key, sec, fil, kw.get('context'), n.lineno, env))
+            site = LoadSite(self.cur, self.key, sec, fil, kw.get('context'), n.lineno, env)
+            site.kw, site.node = kw, n          # every keyword of the load call (outer_module_scope, compiler_directives ...) and its ast
+            self.loads.append(site)
             return Sym('utility')
         if isinstance(f, ast.Name) and f.id == 'dict':
             out = dict(args[0]) if args and isinstance(args[0], dict) else {}
